@@ -90,6 +90,7 @@ TreeVal(R, G, ty, fs, oc, path, gate, top) ==
        ELSE IF oc.t # "o" THEN leafNode("bad", Null)
        ELSE LET rt == oc.type
                 okType == /\ rt \in DOMAIN S.types /\ S.types[rt].kind = "OBJECT"
+                          /\ ~("reject" \in DOMAIN oc /\ oc.reject)          \* the object type's is_type_of accepts the value
                           /\ (IF kind = "OBJECT" THEN rt = Named(t) ELSE Matches(S, Named(t), rt))
             IN IF ~okType THEN leafNode("bad", Null)
                ELSE LET fl == Collect(R, MergedSel(fs), rt)
